@@ -215,8 +215,149 @@ func runC01(c *Ctx) {
 		}
 		c.Res.Traces = len(cases)
 	}
+	c01Equal(c, cases)
 	if c.Thorough() {
 		c01Cap(c)
+	}
+}
+
+// c01Mutate returns a copy of it with one element / byte / child changed (nil if nothing can be changed).
+func c01Mutate(c *Ctx, it *LItem) *LItem {
+	r := c.Rng
+	cp := *it
+	switch it.Kind {
+	case "L":
+		if len(it.Kids) == 0 {
+			return &LItem{Kind: "L", Kids: []*LItem{GenLeaf(r, "U1", 1)}}
+		}
+		cp.Kids = append([]*LItem(nil), it.Kids...)
+		i := r.IntN(len(cp.Kids))
+		if m := c01Mutate(c, cp.Kids[i]); m != nil {
+			cp.Kids[i] = m
+		} else {
+			cp.Kids = cp.Kids[:len(cp.Kids)-1]
+		}
+		return &cp
+	case "B", "A", "J", "W", "O":
+		if len(it.Bytes) == 0 {
+			if it.Kind == "W" {
+				cp.LSH ^= 1
+				return &cp
+			}
+			cp.Bytes = []byte{1}
+			return &cp
+		}
+		cp.Bytes = append([]byte(nil), it.Bytes...)
+		i := r.IntN(len(cp.Bytes))
+		if it.Kind == "O" {
+			cp.Bytes[i] ^= 1
+		} else {
+			cp.Bytes[i] ^= byte(1 << r.IntN(8))
+		}
+		return &cp
+	case "I":
+		if len(it.Ints) == 0 {
+			cp.Ints = []int64{0}
+			return &cp
+		}
+		cp.Ints = append([]int64(nil), it.Ints...)
+		i := r.IntN(len(cp.Ints))
+		lo, _ := intRange(it.W)
+		if cp.Ints[i] == lo {
+			cp.Ints[i]++
+		} else {
+			cp.Ints[i]--
+		}
+		return &cp
+	case "U":
+		if len(it.Uints) == 0 {
+			cp.Uints = []uint64{0}
+			return &cp
+		}
+		cp.Uints = append([]uint64(nil), it.Uints...)
+		i := r.IntN(len(cp.Uints))
+		if cp.Uints[i] == 0 {
+			cp.Uints[i] = 1
+		} else {
+			cp.Uints[i]--
+		}
+		return &cp
+	case "F":
+		if len(it.Bits) == 0 {
+			cp.Bits = []uint64{0}
+			return &cp
+		}
+		cp.Bits = append([]uint64(nil), it.Bits...)
+		i := r.IntN(len(cp.Bits))
+		switch r.IntN(3) {
+		case 0:
+			cp.Bits[i] ^= 1 // may turn one NaN into another NaN (still Equal) or ±0 handling
+		case 1:
+			if it.W == 4 {
+				cp.Bits[i] ^= 0x80000000
+			} else {
+				cp.Bits[i] ^= 0x8000000000000000
+			}
+		default:
+			cp.Bits[i] = genFloatBits(r, it.W)
+		}
+		return &cp
+	}
+	return nil
+}
+
+// c01Equal: `Equal` is the oracle of the round trip, so it is itself compared with the model's
+// `equalItem` on pairs that differ in exactly one element (and on same-value pairs built through
+// different argument shapes): a comparison that ignores values, widths or order would let a broken
+// decoder pass.
+func c01Equal(c *Ctx, cases []c01Case) {
+	var lines []string
+	type pair struct {
+		a, b secs2.Item
+		ta   string
+		tb   string
+	}
+	var pairs []pair
+	for i := 0; i < len(cases) && len(pairs) < c.Pick(3000, 30000); i++ {
+		cs := cases[i]
+		if cs.tag == "leaf-64k" || cs.tag == "list-boundary" || cs.it.HasEmpty() {
+			continue
+		}
+		m := c01Mutate(c, cs.it)
+		if m == nil {
+			continue
+		}
+		a, b := Build(cs.it, cs.shape), Build(m, (cs.shape+1)%6)
+		if a.Error() != nil || b.Error() != nil {
+			continue
+		}
+		pairs = append(pairs, pair{a, b, cs.it.Text(), m.Text()})
+		lines = append(lines, "secs2.equal "+cs.it.Text()+" | "+m.Text())
+		// the same value through another argument shape must be Equal
+		a2 := Build(cs.it, (cs.shape+3)%6)
+		if a2.Error() == nil && !secs2.Equal(a, a2) {
+			c.Violate("property", "equal-same-value-false", "the same logical value built through two argument shapes is not Equal", map[string]any{"item": clip(cs.it.Text(), 2000), "shape": cs.shape})
+		}
+	}
+	var ans []string
+	if c.Lean != nil {
+		ans = c.Lean.AskAll(lines)
+	}
+	for i, p := range pairs {
+		got := secs2.Equal(p.a, p.b)
+		sym := secs2.Equal(p.b, p.a)
+		c.Count("eq|"+p.ta+"|"+p.tb, true)
+		c.Stat("equal-pairs")
+		replay := map[string]any{"a": clip(p.ta, 2000), "b": clip(p.tb, 2000)}
+		if got != sym {
+			c.Violate("property", "equal-not-symmetric", fmt.Sprintf("Equal(a,b)=%v but Equal(b,a)=%v", got, sym), replay)
+		}
+		if ans != nil && ans[i] != fmt.Sprint(got) {
+			c.Violate("property", "equal-differs-from-model", fmt.Sprintf("Equal(a,b)=%v, logical-value comparison (model equalItem) says %s", got, ans[i]), replay)
+		}
+		if ans == nil && got && p.ta != p.tb && !strings.Contains(p.ta, "F") {
+			c.Violate("property", "equal-differs-from-model", "Equal is true for two items whose values differ", replay)
+		}
 	}
 }
 
